@@ -81,7 +81,8 @@ def run_property(pid, tier, seed, only=None, jobs=None):
     for c in contracts:
         for k in known_all:
             if k.get('status', 'open') == 'open' and k.get('excluding') and k.get('contract') == c.id.split('[')[0]:
-                c.known[k['obligation']] = k['excluding']
+                for ob_ in k.get('obligations', [k['obligation']]):
+                    c.known[ob_] = k['excluding']
     mine = [c for c in contracts if pid in c.serves and not c.trusted]
     if only:
         mine = [c for c in mine if any(o in c.id for o in only)]
